@@ -193,7 +193,7 @@ def g_functiondef(R, tier, only=None):
         # which run holds the first positional parameter is decided per path
         c.branch(sym.zint(args.posonlyargs[0].length) > 0)
         c.branch(sym.zint(args.args[0].length) > 0)
-        node = ast.FunctionDef(name="f", args=args, body=[], decorator_list=[CL.seg("DEC", lambda t: CL.src(t))],
+        node = ast.FunctionDef(name="f", args=args, body=CL.fn_body(), decorator_list=[CL.seg("DEC", lambda t: CL.src(t))],
                                returns=CL.src("returns"), lineno=7, col_offset=0)
         inner = mk_function_nsp(node)
         outer = CL.mk_nsp("outer", inner_nsp=[inner])
@@ -385,7 +385,7 @@ def g_classdef(R, tier):
             K1, K2 = CL.seg("K1", kw), CL.seg("K2", kw)
             mk = ast.keyword(arg="metaclass", value=CL.src("META"))
             kws = {"no-metaclass": [K1], "metaclass-first": [mk, K1], "metaclass-last": [K1, mk]}[meta]
-            node = ast.ClassDef(name="C", bases=[CL.seg("BASE", lambda t: CL.src(t))], keywords=kws, body=[],
+            node = ast.ClassDef(name="C", bases=[CL.seg("BASE", lambda t: CL.src(t))], keywords=kws, body=CL.fn_body(),
                                 decorator_list=[CL.seg("DEC", lambda t: CL.src(t))], lineno=3, col_offset=0)
             symt = Opaque(("cls", "symt"), object, methods=dict(get_lineno=lambda o: 3, get_name=lambda o: "C"))
             inner = CL.mk_nsp("cls", kinds=("class",), symt=symt, class_member_dict_expr=ast.Name(id=Hole("clsdict", "ident", fresh=True)))
@@ -574,4 +574,9 @@ REPLAY.update({k: v for k, v in _c05.REPLAY.items() if k not in REPLAY})
 NO_FRAME_GROUPS = NO_FRAME_GROUPS + ("loops:while-test-evaluated-as-often-as-python", "loops:for-iterable-evaluated-once")  # (their frames are C05's)
 
 # bounded stand-ins for undecided obligations (olvc/oblig.py::main_check)
-STANDINS = {"*": [dict(kind="src", src=_ORDER_SRC, expect="same-globals"), dict(kind="src", src=_CLASS_DECO_SRC, expect="same-globals"), dict(kind="sig")]}
+_IF_AND_CLASS_SRC = ("log = []\ndef t(n, v):\n    log.append(n)\n    return v\nd = {}\nif t('a', 1):\n    pass\nif d.setdefault('k', 0):\n    pass\nelif t('b', 0):\n    pass\nelse:\n    pass\n"
+                     "n = 0\nwhile n < 2:\n    n += 1\n    if t('w', n):\n        pass\n    else:\n        pass\n"
+                     "def deco(f):\n    log.append('deco')\n    return f\nclass E:\n    x = t('member', 1)\n    def __eq__(self, o):\n        return True\n    @deco\n    def m(self, q=t('default', 2)):\n        return q\n    t('bare', 0)\n"
+                     "r = (log, d, E().m())\n")
+STANDINS = {"*": [dict(kind="src", src=_ORDER_SRC, expect="same-globals"), dict(kind="src", src=_CLASS_DECO_SRC, expect="same-globals"),
+                  dict(kind="src", src=_IF_AND_CLASS_SRC, expect="same-globals"), dict(kind="sig")]}
